@@ -201,7 +201,8 @@ def rule_single(ctx, fx, config):
 
 def rule_iter(ctx, fx, config):
     its = proto.iterator_nexts(fx)
-    ctx.floor("ITER.iterators", len(its), 1 if config == "default" else 3, config)
+    feats = set(fx.data.get("features") or [])
+    ctx.floor("ITER.iterators", len(its), 1 + len(feats & {"garde", "validator"}), config)
     proto.check_p4_iter(ctx, fx, config)
     shapes = {}
     for f in its:
